@@ -16,7 +16,7 @@
    is the passive side.  A transfer is atomic per document.  Out of the model: batching, checkpoints,
    the websocket layer, revs_limit pruning (histories here are far below revs_limit), attachments. *)
 From SG Require Import Base.Prelude.
-From SG Require Export C04.RevId C04.RevTree C04.DocModel.
+From SG Require Export C04.RevId C04.RevTree C04.DocModel C06.Switches.
 Open Scope N_scope.
 
 (* bodies are interned: 0 = "{}", 1 = "{"_deleted":true}" (DeletedDocument), >= 2 user bodies *)
@@ -164,7 +164,8 @@ Section Model.
     end.
 
   (* resolveDocMerge: the merged body becomes a child of the remote leaf; the tombstone flag of the new revision
-     is the flag of the INCOMING revision (newDoc.Deleted is not touched by the merge) *)
+     is the flag of the INCOMING revision (newDoc.Deleted is not touched by the merge) -- with the repair
+     null_merge_is_delete, a merge result of {"_deleted":true} makes it a tombstone *)
   Definition put_existing (pol : option policy) (force_tomb : bool) (p : pdoc) (hist : list revid) (deleted : bool) (b : body)
     : pdoc * tstatus :=
     let t := ptree p in
@@ -203,7 +204,8 @@ Section Model.
                    end
                  | RMerge mb =>
                    match tombstone_local p l ldel with
-                   | Some p1 => match finish_put p1 (mkid (hd_error hist) mb :: hist) deleted mb with
+                   | Some p1 => match finish_put p1 (mkid (hd_error hist) mb :: hist)
+                                                 (deleted || (null_merge_is_delete && (mb =? b_tomb))) mb with
                                 | (p2, TApplied) => (p2, TApplied)
                                 | _ => (p, TError)
                                 end
